@@ -1,4 +1,5 @@
 import Tea.Proofs.InputReader
+import Tea.Proofs.InputReaderCancel
 /-
 C09 — The input reader is total: never panics, stalls, loses or repeats bytes.
 
@@ -87,6 +88,115 @@ example : ¬ HeldBack [] [0x61] false := by
 /-- non-vacuity: a concrete stream (a key, an invalid byte, a mouse report cut in two) -/
 example : (readAll [{ seq := [0x1b, 0x5b, 0x41], key := { type := -2 } }] [3] true
     [[0x1b, 0x5b, 0x41, 0xff], [0x1b, 0x5b, 0x3c, 0x30, 0x3b], [0x31, 0x3b, 0x31, 0x4d]] [] []).toOption.isSome = true := by
+  decide
+
+/-! ### a failing Read that carries data; cancellation -/
+
+/-- A last Read that returns bytes TOGETHER with a non-EOF error (`n > 0, err != nil`): the
+code looks at the error first, so the reader behaves exactly as if that Read had returned
+nothing. The messages are those of the successful reads (first conjunct: by definition);
+`lastData` contributes nothing, whatever it is (second conjunct); and the accounting of
+`C09_reader_total` holds for the successful reads: the consumed runs, non-empty and each
+with a message, followed by the left-over are the concatenation of the successful reads, so
+the bytes delivered by the underlying reader are these followed by the discarded `lastData`. -/
+theorem C09_failing_read_with_data (T : Table) (lens : List Nat) (hl : ∀ l ∈ lens, 0 < l)
+    (reads : List Bytes) (lastData : Bytes) :
+    readAllX T lens reads lastData = readAll T lens false reads [] [] ∧
+    (∀ lastData', readAllX T lens reads lastData' = readAllX T lens reads lastData) ∧
+    ∃ out left, readAllX T lens reads lastData = .ok (out, left) ∧
+      consumedOf out ++ left = reads.flatten ∧
+      consumedOf out ++ left ++ lastData = (reads ++ [lastData]).flatten ∧
+      (∀ o ∈ out, o.consumed ≠ [] ∧ o.msg.isSome) := by
+  refine ⟨rfl, fun _ => rfl, ?_⟩
+  obtain ⟨out, left, h1, h2, h3, _⟩ := C09_reader_total T lens false hl reads
+  refine ⟨out, left, h1, h2, ?_, h3⟩
+  rw [h2]
+  simp
+
+/-- Cancellation only truncates: for every budget the messages sent before the reader notices
+the cancellation are EXACTLY the first `min budget n` messages of the uncancelled run (`n` =
+their number): nothing reordered, nothing duplicated, nothing sent after the cancellation;
+and the reader reports the cancellation iff there was a message number `budget + 1` to send. -/
+theorem C09_cancel_prefix (T : Table) (lens : List Nat) (eof : Bool) (hl : ∀ l ∈ lens, 0 < l)
+    (reads : List Bytes) (budget : Nat) :
+    ∃ out left sent cancelled,
+      readAll T lens eof reads [] [] = .ok (out, left) ∧
+      readAllC T lens eof reads budget = .ok (sent, cancelled) ∧
+      sent = out.take (min budget out.length) ∧
+      sent.length = min budget out.length ∧
+      (cancelled = true ↔ budget < out.length) := by
+  obtain ⟨out, left, h1, _⟩ := C09_reader_total T lens eof hl reads
+  have h := readAllCAux_spec T lens eof reads [] [] budget out left h1
+  simp only [List.length_nil, Nat.zero_add] at h
+  have e : out.take (min budget out.length) = out.take budget := by
+    rcases Nat.le_total budget out.length with hle | hle
+    · rw [Nat.min_eq_left hle]
+    · rw [Nat.min_eq_right hle, List.take_of_length_le hle, List.take_of_length_le (Nat.le_refl _)]
+  exact ⟨out, left, _, _, h1, h, e.symm, by simp [List.length_take], by simp⟩
+
+/-- After the cancellation the reader performs no further Read: if message number
+`budget + 1` is produced within the reads `pre` (the uncancelled reader on `pre` alone emits
+more than `budget` messages), then the result under cancellation is fixed by `pre`: whatever
+reads come later (`later` is arbitrary: different, longer, empty) and however the input would
+have ended, the same `budget` messages are sent and the reader stops cancelled. (No
+hypothesis on the table: the later reads are not even decoded.) -/
+theorem C09_cancel_prompt (T : Table) (lens : List Nat) (pre : List Bytes) (budget : Nat)
+    (out : List Out) (left : Bytes)
+    (h : readAll T lens false pre [] [] = .ok (out, left)) (hb : budget < out.length) :
+    ∀ (eof : Bool) (later : List Bytes),
+      readAllC T lens eof (pre ++ later) budget = .ok (out.take budget, true) := by
+  have h' := readAllCAux_spec T lens false pre [] [] budget out left h
+  simp only [List.length_nil, Nat.zero_add, hb, decide_true] at h'
+  exact readAllCAux_prompt T lens pre [] [] budget _ h'
+
+/-- the same, as independence: two continuations of `pre` cannot be told apart -/
+theorem C09_cancel_prompt_indep (T : Table) (lens : List Nat) (pre : List Bytes) (budget : Nat)
+    (out : List Out) (left : Bytes)
+    (h : readAll T lens false pre [] [] = .ok (out, left)) (hb : budget < out.length)
+    (eof₁ eof₂ : Bool) (later₁ later₂ : List Bytes) :
+    readAllC T lens eof₁ (pre ++ later₁) budget = readAllC T lens eof₂ (pre ++ later₂) budget := by
+  rw [C09_cancel_prompt T lens pre budget out left h hb, C09_cancel_prompt T lens pre budget out left h hb]
+
+/-- accounting under cancellation: the reader does not panic; the consumed runs of the
+messages that were sent are non-empty, adjacent, in order, and form a PREFIX of the input
+(`rest` = what was not delivered as a message); when the reader was not cancelled this is the
+uncancelled run with its left-over. -/
+theorem C09_cancel_accounting (T : Table) (lens : List Nat) (eof : Bool) (hl : ∀ l ∈ lens, 0 < l)
+    (reads : List Bytes) (budget : Nat) :
+    ∃ sent cancelled rest,
+      readAllC T lens eof reads budget = .ok (sent, cancelled) ∧
+      consumedOf sent ++ rest = reads.flatten ∧
+      (∀ o ∈ sent, o.consumed ≠ [] ∧ o.msg.isSome) ∧
+      (cancelled = false → readAll T lens eof reads [] [] = .ok (sent, rest)) := by
+  obtain ⟨out, left, h1, h2, h3, _⟩ := C09_reader_total T lens eof hl reads
+  have h := readAllCAux_spec T lens eof reads [] [] budget out left h1
+  simp only [List.length_nil, Nat.zero_add] at h
+  refine ⟨_, _, consumedOf (out.drop budget) ++ left, h, ?_, ?_, ?_⟩
+  · rw [← List.append_assoc, ← consumedOf_append, List.take_append_drop, h2]
+  · intro o ho
+    exact h3 o (List.mem_of_mem_take ho)
+  · intro hc
+    have hle : out.length ≤ budget := by
+      have : ¬ budget < out.length := by simpa using hc
+      omega
+    rw [List.take_of_length_le hle, List.drop_of_length_le hle]
+    simpa [consumedOf] using h1
+
+/-- a concrete run: three reads (an arrow key and an invalid byte; `a`; `b`) give four
+messages; cancelled after two, exactly the first two are sent (the key, the invalid byte)
+and the reader stops cancelled; a failing third Read carrying `b` yields the first three. -/
+example :
+    let T : Table := [{ seq := [0x1b, 0x5b, 0x41], key := { type := -2 } }]
+    let reads : List Bytes := [[0x1b, 0x5b, 0x41, 0xff], [0x61], [0x62]]
+    ((readAll T [3] true reads [] []).toOption.map fun r => r.1.map (·.consumed))
+        = some [[0x1b, 0x5b, 0x41], [0xff], [0x61], [0x62]] ∧
+    ((readAllC T [3] true reads 2).toOption.map fun r => (r.1.map (·.consumed), r.2))
+        = some ([[0x1b, 0x5b, 0x41], [0xff]], true) ∧
+    ((readAllC T [3] true reads 2).toOption.map (·.1))
+        = (readAll T [3] true reads [] []).toOption.map (·.1.take 2) ∧
+    ((readAllC T [3] true reads 4).toOption.map fun r => (r.1.length, r.2)) = some (4, false) ∧
+    ((readAllX T [3] (reads.take 2) [0x62]).toOption.map fun r => r.1.map (·.consumed))
+        = some [[0x1b, 0x5b, 0x41], [0xff], [0x61]] := by
   decide
 
 end Tea.Props.C09
